@@ -128,6 +128,14 @@ def run(ctx):
         orders = [order for order in orders if valid_order(ruleset, order)]
         ks = sorted(rng.sample(range(1, scene["L"]), 4)) if scene["circ"] else []
         cases.append({"scene": scene, "rules": ruleset, "scale": rng.choice([1, 1000]), "ks": ks, "orders": orders})
+    # genes in two exons anywhere on the ring: some rotation puts the origin into an intron
+    for _ in range(250 if ctx.quick else 6000):
+        scene = c03.random_big_scene(rng, spliced=True)
+        ruleset = c03.scale_rules(rng, c03.make_ruleset(rng, rules, rng.choice([2, 3])))
+        names = [r["name"] for r in ruleset]
+        orders = [order for order in [names[::-1]] if valid_order(ruleset, order)]
+        ks = sorted(rng.sample(range(1, scene["L"]), 6))
+        cases.append({"scene": scene, "rules": ruleset, "scale": rng.choice([1, 1000]), "ks": ks, "orders": orders})
     for idx, case in enumerate(cases):
         case["id"] = idx
     samples = {}
